@@ -1,3 +1,4 @@
+#include <chrono>
 #include "isolate.h"
 
 #include <signal.h>
@@ -322,10 +323,18 @@ struct Shrinker
     const std::string& sig;
     int budget;
     ShrinkStats& st;
+    // wall-clock cap: a candidate of a hang (crash.timeout) costs a whole watchdog period, so the execution budget alone
+    // would let the minimisation of one violation run for hours. Minimisation then simply stops earlier (the plan is larger).
+    std::chrono::steady_clock::time_point deadline = std::chrono::steady_clock::now() + std::chrono::seconds(150);
     bool test(const Plan& p)
     {
         if (st.executions >= budget)
             return false;
+        if (std::chrono::steady_clock::now() > deadline)
+        {
+            st.executions = budget;  // ends every loop of shrinkPlan
+            return false;
+        }
         st.executions++;
         Outcome o = runIsolated(p, 30);
         return o.sig == sig;
